@@ -32,7 +32,8 @@ def drive(chk, D, kind, real_t, h, cells, residues, M, grid, bump):
     pos = np.empty((D, N), dtype=real_t)
     for n, (i, r) in enumerate(zip(cells, residues)):
         for k in range(D):
-            x = real_t((i[k] + r[k] / M) * h + h / 2)
+            frac = r[k] / M if r[k] is not None else float(np.random.default_rng(hash((i, k, n)) % 2**32).random())
+            x = real_t((i[k] + frac) * h + h / 2)
             if bump:
                 x = np.nextafter(x, real_t(np.inf if bump > 0 else -np.inf))
             pos[k, n] = x
@@ -44,6 +45,10 @@ def drive(chk, D, kind, real_t, h, cells, residues, M, grid, bump):
     for n in range(N):
         for k in range(D):
             allowed = {cells[n][k]}
+            if residues[n][k] is None:      # random position strictly inside the cell: the index is the cell's
+                if int(idx[k, n]) != cells[n][k]:
+                    errs.append(f"marker {n} axis {k}: nearest index {idx[k, n]} != {cells[n][k]} for position {pos[k, n]!r}")
+                continue
             if residues[n][k] == 0 or bump:
                 allowed.add(cells[n][k] - 1 if (residues[n][k] == 0) else cells[n][k])
             if int(idx[k, n]) not in allowed:
@@ -131,18 +136,20 @@ def run(chk: core.Check):
                             for a_ in range(D):
                                 for other in (3 % M, M - 1):
                                     allres.append(tuple(0 if b_ == a_ else other for b_ in range(D)))
+                        nrand = 4 if quick else 40
                         for bump in (0, 1, -1):
                             # batches of markers (each batch size is a separately compiled numba kernel:
                             # quick uses 4, thorough 1, 3 and 5)
                             sizes = [4] if quick else [1, 3, 5]
+                            res_list = allres + ([(None,) * D] * (nrand * sizes[0]) if bump == 0 else [])   # + random positions
                             i0 = 0
                             bi = 0
-                            while i0 < len(allres):
+                            while i0 < len(res_list):
                                 nb = sizes[bi % len(sizes)]
                                 bi += 1
-                                batch = allres[i0 : i0 + nb]
+                                batch = res_list[i0 : i0 + nb]
                                 if len(batch) < nb:
-                                    batch = batch + allres[: nb - len(batch)]
+                                    batch = batch + res_list[: nb - len(batch)]
                                 cells = [tuple(int(rng.integers(2, n - 3)) for n in ext) for _ in batch]
                                 cells[0] = tuple(n - 4 for n in ext)   # one marker at the far end of every axis
                                 try:
